@@ -18,7 +18,7 @@ from vlib.monitor import OpTimeout, fmt_exc, numerical_failure, time_limit
 from vlib.ref import pd_info
 
 PROPERTY = "C07"
-TIERS = {"quick": {"shards": 8, "budget_s": 45}, "thorough": {"shards": 16, "budget_s": 600}}
+TIERS = {"quick": {"shards": 8, "budget_s": 40}, "thorough": {"shards": 16, "budget_s": 600}}
 RULE = (
     "fitted problem (xy linear/nonlinear with y / x / correlated / model-relative sources, hist with Poisson likelihood; fixed subsets; both backends) x "
     "{covariance, errors, correlation, profile of every free parameter, asymmetric errors, 1/2-sigma contour of a parameter pair, error band at float/int/outside x}; "
@@ -28,7 +28,7 @@ ASSUMPTIONS = [
     "no parameter rests on a limit (limits are not declared here; C06 covers them)",
     "covariance tolerance |C - C_ref|_ij / sqrt(C_ii C_jj): linear problems 5e-3 (scipy) / max(5e-3, 5e-8 cond) (iminuit HESSE); nonlinear problems 3e-2 (scipy) / 1e-1 (iminuit HESSE at strategy 1)",
     "profile points within 1e-3 + 1e-3 * rise of the reference profile (5e-3 for scipy); asymmetric errors: reference rise 1 +- 3e-2 (iminuit MINOS) / 6e-2 (scipy); contour points: rise within [0.8, 1.25] n^2",
-    "error band relative 2e-3 + the analytic bound of the implementation's numerical parameter derivative; problems whose reference Hessian has cond > 1e6 are discarded",
+    "error band relative 2e-3 + the analytic bound of the implementation's numerical parameter derivative; problems whose reference Hessian has cond > 1e4 are discarded (MINUIT's HESSE / MNPROFILE lose accuracy in proportion to it)",
 ]
 ANCHORS = [
     ("kafe2.core.minimizers.minimizer_base", "MinimizerBase.hessian"),
@@ -74,7 +74,7 @@ def gen_case(rng, tier, idx, shard, nshards):
         npts = int(rng.integers(len(Model(fam).pnames) + 4, 13))
         spec = gen.gen_xy_spec(rng, family=fam, cost="chi2", n=npts, noise=0.04)
         ys = float(np.mean(np.abs(spec["y"])) + 0.3)
-        setup.append(gen.gen_source(rng, npts, "xy", "e0", yscale=ys * 0.5, force={"axis": "y", "reference": "data", "kind": "simple", "shape": "vec", "relative": False}))
+        setup.append(gen.gen_source(rng, npts, "xy", "e0", yscale=ys * 0.5, force={"axis": "y", "reference": "data", "kind": "simple", "shape": "vec", "relative": False, "corr": 0.0}))
         r = rng.random()
         if r < 0.25:
             setup.append(["add_error", {"axis": "y", "err": float(np.round(rng.uniform(0.03, 0.08), 4)), "relative": True, "reference": "model", "corr": 0.0, "name": "e1"}])
@@ -125,14 +125,34 @@ def ref_hessian(cost, p, free_idx, scale):
     return H / np.outer(scale, scale)
 
 
-def ref_profile_value(cost, p_hat, free_idx, pinned, sig):
-    """min over the other free parameters with `pinned` = {index: value}"""
+def ref_profile_value(cost, p_hat, free_idx, pinned, sig, warm=None):
+    """min over the other free parameters with `pinned` = {index: value}; multi-start (optimum, warm start of the neighbouring
+    profile point, +-1 sigma perturbations) because the reference must really be the minimum"""
     others = [i for i in free_idx if i not in pinned]
-    q0 = np.array(p_hat, dtype=float)
+    starts = [np.array(p_hat, dtype=float)]
+    if warm is not None:
+        starts.append(np.array(warm, dtype=float))
+    for k in others[:3]:
+        for sgn in (1.0, -1.0):
+            q = np.array(p_hat, dtype=float)
+            q[k] += sgn * sig[k]
+            starts.append(q)
+    best_val, best_q = np.inf, None
+    for q0 in starts:
+        v, q = _ref_profile_from(cost, q0, others, pinned, sig)
+        if v < best_val:
+            best_val, best_q = v, q
+    if warm is not None and isinstance(warm, np.ndarray) and best_q is not None:
+        warm[:] = best_q  # hand the solution on to the next point of the same profile
+    return best_val
+
+
+def _ref_profile_from(cost, q_start, others, pinned, sig):
+    q0 = np.array(q_start, dtype=float)
     for i, v in pinned.items():
         q0[i] = v
     if not others:
-        return cost(q0)
+        return cost(q0), q0
 
     def g(v):
         q = q0.copy()
@@ -156,7 +176,11 @@ def ref_profile_value(cost, p_hat, free_idx, pinned, sig):
                 best = res
         except Exception:
             pass
-    return float(best.fun) if best is not None else np.inf
+    if best is None:
+        return np.inf, q0
+    qb = q0.copy()
+    qb[others] = best.x
+    return float(best.fun), qb
 
 
 # ------------------------------------------------------------------ adapter-level cases
@@ -242,7 +266,7 @@ def run_fit_case(ctx, case):
         ctx.discard("reference-hessian-failed")
         return False
     ok, cond = pd_info(H) if np.all(np.isfinite(H)) else (False, np.inf)
-    if not ok or cond > 1e6:
+    if not ok or cond > 1e4:
         ctx.discard("reference-hessian-not-pd-or-ill-conditioned")
         return False
     Cf = 2.0 * np.linalg.inv(H)
@@ -277,6 +301,17 @@ def run_fit_case(ctx, case):
         exp = cm / np.outer(dd, dd)
         sub = np.ix_(free_idx, free_idx)
         ctx.check("cor=normalised", bool(np.all(np.abs(cor[sub] - exp[sub]) <= 1e-9)), lambda: dict(d, got=cor, expected=exp))
+    # the adapter's own Hessian and its inverse (same definitions, other accessors)
+    mini = fit._fitter.minimizer
+    Hk = mini.hessian
+    if Hk is not None:
+        Hk = np.array(Hk, dtype=float)[np.ix_(free_idx, free_idx)]
+        hs = np.sqrt(np.abs(np.diag(H)))
+        hdev = np.abs(Hk - H) / np.outer(hs, hs)
+        ctx.check("hessian", bool(np.all(hdev <= tol)), lambda: dict(d, got=Hk, expected=H, max_normalised_deviation=float(hdev.max()), tolerance=tol))
+    Hi = mini.hessian_inv
+    if Hi is not None:
+        ctx.check("hessian_inv=cov/2", bool(np.all(np.abs(np.array(Hi, dtype=float) * 2.0 * mini.errordef - cm) <= 1e-9 * np.outer(ss, ss) + 1e-300)), lambda: dict(d, hessian_inv=Hi, cov=cm, errordef=mini.errordef))
     nv = sum(ctx._wit_per_key.values())
     rng = np.random.default_rng(case["aux_seed"])
     ptol = 1e-3 if minimizer == "iminuit" else 5e-3
@@ -297,8 +332,11 @@ def run_fit_case(ctx, case):
                 ctx.violation(None, "profile.no-exception", dict(d, parameter=names[i], traceback=fmt_exc()))
                 return nontrivial
             xs, ys = np.array(prof[0], dtype=float), np.array(prof[1], dtype=float)
-            for xv, yv in zip(xs, ys):
-                r = ref_profile_value(cost, p_hat, free_idx, {i: float(xv)}, sig)
+            order = np.argsort(np.abs(xs - p_hat[i]))  # outward from the optimum, warm-starting each side separately
+            warm_lo, warm_hi = p_hat.copy(), p_hat.copy()
+            for kk in order:
+                xv, yv = xs[kk], ys[kk]
+                r = ref_profile_value(cost, p_hat, free_idx, {i: float(xv)}, sig, warm=warm_lo if xv < p_hat[i] else warm_hi)
                 if not np.isfinite(r):
                     ctx.discard("reference-profile-not-finite")
                     continue
@@ -369,12 +407,11 @@ def run_fit_case(ctx, case):
                 import contourpy
 
                 gx, gy, gz = np.array(cont.grid_x, dtype=float), np.array(cont.grid_y, dtype=float), np.array(cont.grid_z, dtype=float)
-                # kafe2 stores grid_z[ix, iy] = cost rise in units of sigma^2? — read the level set at n_sigma^2 of (z - min)
-                z = gz.T  # contourpy expects z[iy, ix]
+                # the grid holds sqrt(cost - minimum) (ContoursProfiler draws the level `contour.sigma` of grid_z.T); cells that were
+                # never evaluated are nan: they lie outside the contour
+                z = np.where(np.isfinite(gz.T), gz.T, 10.0 * nsig)  # contourpy expects z[iy, ix]
                 try:
-                    lines = contourpy.contour_generator(x=gx, y=gy, z=z).lines(nsig**2)
-                    if not lines:
-                        lines = contourpy.contour_generator(x=gx, y=gy, z=z - np.nanmin(z)).lines(nsig**2)
+                    lines = contourpy.contour_generator(x=gx, y=gy, z=z).lines(nsig)
                     if lines:
                         L = max(lines, key=len)
                         pts = L[:: max(1, len(L) // 10)]
